@@ -86,6 +86,7 @@ func runC10(l *core.Ledger) {
 	l.Rule("C10-N9", "the reader fails the calls of the stream that failed, not the calls already written to a stream re-created meanwhile: the fail-all routine is told (or finds out) which stream a pending request was written to")
 	c10N8(l, r)
 	c10N11(l, r)
+	c10N10(l, r)
 	c10N1(l, r)
 	c10N2(l, r)
 	c10N3(l, r)
@@ -1007,4 +1008,36 @@ func c10N11(l *core.Ledger, r *rt) {
 		}
 	})
 	l.Floor("C10-N11", n, 2, "local answers in enqueue")
+}
+
+// c10N10: "every back-off configuration". grpc.WithConnectParams replaces all
+// connection parameters: a ConnectParams literal that sets only Backoff leaves
+// MinConnectTimeout at zero, and gRPC then gives every connection attempt no
+// more than the back-off delay of that attempt - with a small back-off
+// configuration a node whose connection setup takes longer is never connected
+// again.
+func c10N10(l *core.Ledger, r *rt) {
+	l.Rule("C10-N10", "every grpc.ConnectParams the library builds sets MinConnectTimeout (non-zero): the caller's back-off configuration must not cap the time a connection attempt is given")
+	n := 0
+	for _, f := range allFuncs(l.Prog, r.pkg) {
+		f := f
+		sx.AllInstrs(f, func(_ sx.Node, in ssa.Instruction) {
+			al, ok := in.(*ssa.Alloc)
+			if !ok || !isNamed(al.Type(), "google.golang.org/grpc", "ConnectParams") {
+				return
+			}
+			n++
+			key := fmt.Sprintf("%s/ConnectParams#%d", fnKey(f), n)
+			fs := allocFieldStores(al)
+			v := fs["MinConnectTimeout"]
+			okv := v != nil
+			if k, isK := v.(*ssa.Const); isK && (k.Value == nil || constant.Sign(k.Value) <= 0) {
+				okv = false
+			}
+			l.Check(okv, "C10-N10", key, al.Pos(), "MinConnectTimeout is set", "the connection parameters handed to gRPC carry the back-off configuration but leave MinConnectTimeout at zero: every connection attempt is given at most the back-off delay, so with a small back-off configuration (BaseDelay 10ms, MaxDelay 100ms) a restarted node whose connection setup takes longer than that is never connected again")
+		})
+	}
+	if n == 0 {
+		l.OK("C10-N10", "no-ConnectParams", token.NoPos, "the library builds no connection parameters")
+	}
 }
